@@ -147,7 +147,7 @@ Definition alive (o : owners) : bool := old_w o || in_flight o || new_w o.
 
 Record server := mksrv {
   stopping : option nat;      (* Server.shutting_down: the request id to answer *)
-  base : nat;                 (* base_sessions_count *)
+  base : nat;                 (* the floor: listener / channel / metrics / timer slots of the slab ([listen_slots]) *)
   sessions : list bool;       (* per session: does shutting_down() say it can close now *)
   accepting : bool;
   answers : list nat          (* WorkerResponse::ok(id) written so far *)
